@@ -26,6 +26,23 @@ type Case struct {
 	// answered, then gone), "ssl-garbage" (SSLRequest, then bytes that are no TLS handshake),
 	// "tls-no-startup" (TLS negotiated, then gone). What they left behind must not reach the sessions.
 	Prelude []string `json:"prelude,omitempty"`
+	// Auth: clear-text passwords, one per user (session i logs in with its own; sessions listed in
+	// WrongPw send the password of their neighbour and are turned away - alone and in company alike)
+	Auth    bool  `json:"auth,omitempty"`
+	WrongPw []int `json:"wrong_pw,omitempty"`
+}
+
+func (c Case) password(i int) *string {
+	if !c.Auth {
+		return nil
+	}
+	p := fmt.Sprintf("pw:user%d", i)
+	for _, j := range c.WrongPw {
+		if j == i {
+			p = fmt.Sprintf("pw:user%d", i+1)
+		}
+	}
+	return &p
 }
 
 func prelude(env *script.Env, kind string) {
@@ -88,6 +105,7 @@ type runner struct {
 	msgs [][]script.CMsg
 	next []int
 	res  []sessResult
+	pass func(i int) *string
 }
 
 // startupPairs: what session i announces (different users; every other session also an
@@ -100,10 +118,17 @@ func startupPairs(i int) [][2]string {
 	return p
 }
 
+func (r *runner) passOf(i int) *string {
+	if r.pass == nil {
+		return nil
+	}
+	return r.pass(i)
+}
+
 func (r *runner) start(i int) bool {
 	s := r.env.NewSess()
 	r.sess[i] = s
-	st := s.Startup(startupPairs(i), nil)
+	st := s.Startup(startupPairs(i), r.passOf(i))
 	if st.State == memnet.Timeout {
 		r.res[i].inc = "startup guard"
 		return false
@@ -161,7 +186,15 @@ func Run(c Case) core.Result {
 	mark := core.RaceMark()
 
 	// concurrent run
+	if c.Auth {
+		c.Cfg.Auth = &script.AuthSpec{PerUser: true, Pass: "pw"}
+		res.Labels = append(res.Labels, "password-logins")
+		if len(c.WrongPw) > 0 {
+			res.Labels = append(res.Labels, "some-logins-rejected")
+		}
+	}
 	cr := newRunner(c.Cfg, c.Sessions)
+	cr.pass = c.password
 	for _, k := range c.Prelude {
 		prelude(cr.env, k)
 	}
@@ -176,7 +209,12 @@ func Run(c Case) core.Result {
 	if c.Staller != "" {
 		res.Labels = append(res.Labels, "staller="+c.Staller)
 		st := cr.env.NewSess()
-		if r := st.Startup([][2]string{{"user", "staller"}}, nil); r.State == memnet.Idle {
+		var spw *string
+		if c.Auth {
+			p := "pw:staller"
+			spw = &p
+		}
+		if r := st.Startup([][2]string{{"user", "staller"}}, spw); r.State == memnet.Idle {
 			lim := c.Cfg.Limit
 			if lim <= 0 {
 				lim = 1 << 24
@@ -256,7 +294,7 @@ func Run(c Case) core.Result {
 		sr.msgs = [][]script.CMsg{c.Sessions[i]}
 		s := sr.env.NewSess()
 		sr.sess[0] = s
-		st := s.Startup(startupPairs(i), nil)
+		st := s.Startup(startupPairs(i), c.password(i))
 		ok := st.State == memnet.Idle && st.Err == nil
 		sr.res[0].canon = append(sr.res[0].canon, pgwire.Canon(st.Msgs)...)
 		for ok && sr.step(0) {
